@@ -376,4 +376,77 @@ Proof.
   eexists. split; [reflexivity|]. intros u U pre C. rewrite (in_upto u U pre true C).
   unfold PS.contains1, spec_of. cbn [PS.sp_op PS.sp_ver]. fold (dd U M m p). f_equal. zcases.
 Qed.
+
+(* !=M.m.p : excludeToSpans gives [0.0.0, M.m.p) and (M.m.p, inf.inf.inf], whose outer ends are
+   fresh versions without extension object *)
+Lemma compare_zero_lo : (M <> 0 \/ m <> 0 \/ p <> 0) -> compare (zero_version SPyPI) lo = Ok (-1).
+Proof.
+  intros NZ. unfold compare. cbn -[compare_nums]. unfold generic_compare. cbn -[compare_nums].
+  assert (E : compare_nums [0; 0; 0] [M; m; p] = -1).
+  { assert (F0 : fin 0) by (unfold fin, infinity; lia).
+    rewrite (compare_nums_antisym [M; m; p] [0; 0; 0] (nn3 _ _ _ HM Hm Hp) (nn3 _ _ _ F0 F0 F0)).
+    assert (F : Forall fin [M; m; p]) by (constructor; [exact HM|constructor; [exact Hm|constructor; [exact Hp|constructor]]]).
+    assert (X : exists x, In x [M; m; p] /\ x <> 0).
+    { destruct NZ as [N|[N|N]]; [exists M | exists m | exists p]; simpl; auto. }
+    rewrite (zero_below [M; m; p] F X). reflexivity. }
+  rewrite E. reflexivity.
+Qed.
+
+Lemma compare_lo_inf : compare lo (inf_version SPyPI) = Ok (-1).
+Proof.
+  unfold compare. cbn -[compare_nums]. unfold generic_compare. cbn -[compare_nums].
+  unfold fin in *. rewrite lt_inf by lia. reflexivity.
+Qed.
+
+Lemma compare_cand_zero u U : pcand u U -> compare u (zero_version SPyPI) = Ok 1.
+Proof.
+  intros C. unfold compare. rewrite (pc_sys _ _ C), (pc_ext _ _ C). cbn -[compare_nums].
+  unfold generic_compare. rewrite (pc_num _ _ C), (pc_pre _ _ C). cbn -[compare_nums].
+  rewrite (zero_below U (pc_fin _ _ C) (pc_nz _ _ C)). reflexivity.
+Qed.
+
+Lemma compare_inf_cand u U : pcand u U -> compare (inf_version SPyPI) u = Ok 1.
+Proof.
+  intros C. unfold compare. rewrite (pc_sys _ _ C), (pc_ext _ _ C). cbn -[compare_nums].
+  unfold generic_compare. rewrite (pc_num _ _ C), (pc_pre _ _ C). cbn -[compare_nums].
+  rewrite (inf_above U (pc_fin _ _ C) (cand_nonnil _ _ C)). reflexivity.
+Qed.
+
+Theorem ne_sound : (M <> 0 \/ m <> 0 \/ p <> 0) ->
+  exists s1 s2, exclude_to_spans pv lo = Ok (s1, s2) /\
+    forall u U pre, pcand u U ->
+      match_spans u pre [s1; s2] = Ok (PS.contains1 (spec_of PS.PNe M m p false [M; m; p]) U).
+Proof.
+  intros NZ. unfold exclude_to_spans. cbn [v_num mk3p rev app].
+  unfold is_wild_or_inf, wildcard, fin in *. cbn [existsb].
+  rewrite !(proj2 (Z.eqb_neq _ (-1))) by lia. rewrite !(proj2 (Z.eqb_neq _ infinity)) by lia. cbn [orb bind].
+  assert (W : nowild lo = true) by (apply nowild3; lia).
+  change (set_tail lo (-1) infinity) with (set_tail lo wildcard infinity).
+  rewrite (set_tail_nowild _ infinity W (or_intror eq_refl)). change (vset_build lo []) with lo.
+  change (v_sys lo) with SPyPI.
+  rewrite (MP.new_span_cmp (zero_version SPyPI) false lo true eq_refl W).
+  change (vset_build (zero_version SPyPI) []) with (zero_version SPyPI). change (vset_build lo []) with lo.
+  rewrite (compare_zero_lo NZ). cbn [bind Z.eqb Z.ltb Z.compare].
+  rewrite (MP.new_span_cmp lo true (inf_version SPyPI) false W eq_refl).
+  change (vset_build (inf_version SPyPI) []) with (inf_version SPyPI). change (vset_build lo []) with lo.
+  rewrite compare_lo_inf. cbn [bind Z.eqb Z.ltb Z.compare].
+  eexists. eexists. split; [reflexivity|]. intros u U pre C.
+  cbn [match_spans]. rewrite !(match_span_final u U pre _ C). unfold span_contains.
+  cbn [sp_rank sp_min sp_max sp_min_open sp_max_open compare_opt].
+  rewrite (compare_cand_zero u U C), (compare_inf_cand u U C).
+  rewrite (compare_cand_l u U str M m p C) by (unfold fin; lia).
+  rewrite (compare_cand_r u U str M m p C) by (unfold fin; lia).
+  rewrite (pc_sys _ _ C), (pc_rel _ _ C). cbn [bind Z.eqb Z.ltb Z.compare andb orb sys_eqb sys_index Pos.eqb negb].
+  unfold PS.contains1, spec_of. cbn [PS.sp_op PS.sp_ver PS.sp_prefix]. fold (dd U M m p).
+  destruct pre; zcases.
+Qed.
+
+(* !=0.0.0 is outside: the first span collapses to the unit span {0.0.0}, which ignores its open
+   end (class F-C03-1a: PyPI `!=0.0` matches 0.0); no candidate of the domain is concerned, the
+   candidates being non-zero *)
+Theorem ne_zero_unit :
+  new_span (zero_version SPyPI) false (mk3p str 0 0 0) true =
+  Ok {| sp_rank := RUnit; sp_min_open := false; sp_max_open := true;
+        sp_min := Some (zero_version SPyPI); sp_max := Some (zero_version SPyPI) |}.
+Proof. reflexivity. Qed.
 End Ops.
